@@ -3,7 +3,9 @@ import json, os
 import seqprop
 from props import _seqplans
 
-THEOREMS = json.load(open(os.path.join(os.path.dirname(__file__), "_theorems.json")))["C14"]
+THEOREMS = {"C14.v": json.load(open(os.path.join(os.path.dirname(__file__), "_theorems.json")))["C14"],
+            # the same at the quiescent end of every interleaving of machine M2 (AfterInterleaving.v)
+            "ConcSeq.v": ["C14_after_every_interleaving"]}
 
 
 def run(ctx):
